@@ -5,7 +5,7 @@ PROPERTY = 'C02'
 THEOREMS = ['Sched.final_status_eq_spec', 'Sched.schedule_independent', 'Sched.soft_never_blocks', 'Sched.InvB_step', 'Sched.InvB_init', 'Sched.spec_eq', 'Sched.exec_at_most_once', 'Sched.exec_count_eq_spec', 'Sched.InvE_step']
 BUDGET = {'quick': 700, 'thorough': 6000}
 TIME_LIMIT = {'quick': 55, 'thorough': 700}
-RULE = ('single runs from an empty environment' + '; the real QueueScheduling backend runs under the controlled scheduler; non-trivial = '
+RULE = ('single runs from an empty environment, all outcome kinds (done, FAILED returned, exception, SystemExit, None, not a pair, bad / non-final status, update that is not a mapping - also falsy - or that replaces the own entry); 25%: a second job with another graph over the same task names, on the same backend object, again from an empty environment' + '; the real QueueScheduling backend runs under the controlled scheduler; non-trivial = '
         '>= 3 tasks with >= 2 edges on >= 2 workers, or a special feature (cycle, stale entries, same backend, lost '
         'entries, several rounds); distinct = case hash')
 CORRESPONDS = sc.CORRESPONDS
